@@ -846,7 +846,7 @@ def run(tier, seed, workers):
             states += st.states
             total.merge(st)
         # many connections at once (one long history each, not a search): every connection keeps its own automaton
-        for n in ((24,) if tier == 'quick' else (24, 70, 200)):
+        for n in ((24,) if tier == 'quick' else (24, 70, 140)):
             model = ConnModel(n, OPS + ['scloseall'])
             for variant in ('peers-close-first', 'server-closes-all'):
                 hist = [('connect', c) for c in range(n)] + [('send5', c) for c in range(n)] + [('swrite', c) for c in range(0, n, 3)]
